@@ -116,9 +116,25 @@ def translate():
         return False, "translator crashed: %r" % (e,), None, None
 
 
+def write_coqproject():
+    lines = ["-Q %s %s" % (d, d) for d in QDIRS]
+    for d in QDIRS:
+        dd = os.path.join(COQ_WORK, d)
+        if os.path.isdir(dd):
+            for fn in sorted(os.listdir(dd)):
+                if fn.endswith(".v") and not fn.startswith("."):
+                    lines.append("%s/%s" % (d, fn))
+    text = "\n".join(lines) + "\n"
+    path = os.path.join(COQ_WORK, "_CoqProject")
+    if not os.path.exists(path) or open(path).read() != text:
+        with open(path, "w") as f:
+            f.write(text)
+
+
 def coq_make(targets, timeout=3000):
     """make the given .vo targets (all if empty). Returns (ok, output)."""
     with Lock("coq"):
+        write_coqproject()
         if (not os.path.exists(os.path.join(COQ_WORK, "Makefile"))
                 or os.path.getmtime(os.path.join(COQ_WORK, "Makefile")) < os.path.getmtime(os.path.join(COQ_WORK, "_CoqProject"))):
             rc, out, err = run(["coq_makefile", "-f", "_CoqProject", "-o", "Makefile"], cwd=COQ_WORK)
